@@ -2609,7 +2609,11 @@ pub fn assign(env: &REnv, lhs: &EvaluatedLvalue, rt: Option<&ObjType>, rhs: Obj)
                     || Ok(unwrap_or_clone(ls)),
                     "Can't unpack into mismatched length",
                 ),
-                Obj::Seq(seq) => match seq.len() {
+                // a string unpacks into its characters, so that is the length to match (len() is in bytes)
+                Obj::Seq(seq) => match match &seq {
+                    Seq::String(s) => Some(s.chars().count()),
+                    _ => seq.len(),
+                } {
                     Some(len) => assign_all(
                         env,
                         ss,
